@@ -29,5 +29,8 @@ Rev(w) == [i \in 1..Len(w) |-> w[Len(w) + 1 - i]]
 IsPrefixOf(u, w) == Len(u) <= Len(w) /\ SubSeq(w, 1, Len(u)) = u
 IsProperPrefixOf(u, w) == Len(u) < Len(w) /\ SubSeq(w, 1, Len(u)) = u
 
+RECURSIVE SetToSeq(_)
+SetToSeq(X) == IF X = {} THEN <<>> ELSE LET x == CHOOSE x \in X : TRUE IN <<x>> \o SetToSeq(X \ {x})
+
 SeqIsSet(s) == \A i, j \in DOMAIN s : i # j => s[i] # s[j]
 =============================================================================
